@@ -237,7 +237,10 @@ class SBT(Index):
         )
 
         # pull out a signature from this collection -
-        first_sig = next(iter(self.signatures()))
+        first_sig = next(iter(self.signatures()), None)
+        if first_sig is None:
+            # nothing (left) to select from: the selection stays empty
+            return self
         db_mh = first_sig.minhash
 
         # check ksize.
